@@ -688,35 +688,79 @@ pub fn c07(ctx: &Ctx, rep: &mut Report) {
     for (i, (c, o)) in cases.iter().zip(&impl_out).enumerate() {
         let (k, k2) = meta[i];
         rep.oracle_checked += 1;
-        let r: Result<(), String> = (|| {
-            expect_ok(c, o)?;
-            let steps = o.steps().unwrap();
-            let (pi, pj) = pair_of_slot(c.n, k);
-            let s0 = &steps[0];
-            let q = f64_to_bits(c.w32, 0.25);
-            if s0.c1 != pi || s0.c2 != pj || s0.bits != q || s0.size != 2 {
-                return Err(format!("slot {} of n={} is pair ({},{}) but first step is ({},{},{},{})", k, c.n, pi, pj, s0.c1, s0.c2, bits_to_f64(c.w32, s0.bits), s0.size));
-            }
-            if let Method::Single = c.method {
-                if c.n >= 3 {
-                    let (qi, qj) = pair_of_slot(c.n, k2);
-                    let s1 = &steps[1];
-                    let lab = |x: usize| if x == pi || x == pj { c.n } else { x };
-                    let (mut e1, mut e2) = (lab(qi), lab(qj));
-                    if e1 > e2 {
-                        std::mem::swap(&mut e1, &mut e2);
-                    }
-                    if s1.c1 != e1 || s1.c2 != e2 || s1.bits != f64_to_bits(c.w32, 0.5) {
-                        return Err(format!("second-smallest slot {} is pair ({},{}); expected second step ({},{}) at 0.5, got ({},{},{})", k2, qi, qj, e1, e2, s1.c1, s1.c2, bits_to_f64(c.w32, s1.bits)));
-                    }
-                }
-            }
-            Ok(())
-        })();
-        if let Err(e) = r {
+        if let Err(e) = c07_probe(c, o, k, k2) {
             rep.fail("oracle", e, vec![op_line_call(c)], vec![o.line(false)], vec![]);
         }
     }
+    // the probes once more through the `_with` forms on REUSED objects, sizes mixed (growing and shrinking
+    // from one call to the next): anything a LinkageState caches about the layout for one n must not be
+    // used for another. Sessions of 12 calls per float width, n <= 130.
+    let small: Vec<usize> = (0..cases.len()).filter(|&i| cases[i].n <= 130).collect();
+    let m = small.len().max(1);
+    let mixed: Vec<usize> = (0..small.len()).map(|j| small[(j * 7919 + ctx.seed as usize) % m]).collect(); // 7919 is prime: a permutation unless m is a multiple of it
+    let mut sessions: Vec<crate::history::History> = vec![];
+    let mut members: Vec<Vec<usize>> = vec![];
+    for w32 in [false, true] {
+        let idx: Vec<usize> = mixed.iter().cloned().filter(|&i| cases[i].w32 == w32).collect();
+        let take = if ctx.thorough { idx.len() } else { idx.len().min(6000) };
+        for chunk in idx[..take].chunks(12) {
+            sessions.push(crate::history::History { id: sessions.len(), w32, calls: chunk.iter().map(|&i| cases[i].clone()).collect() });
+            members.push(chunk.to_vec());
+        }
+    }
+    rep.count_by("reused_state_sessions", sessions.len() as u64);
+    let sessions = Arc::new(sessions);
+    let shared = match par_map(sessions.clone(), ctx.threads, |_h| std::time::Duration::from_secs(120), crate::history::run_history) {
+        Ok(v) => v,
+        Err(i) => {
+            rep.fail("hang", "session of `_with` probe calls on reused objects did not finish".into(), sessions[i].calls.iter().map(|c| op_line_with(0, c)).collect(), vec![], vec![]);
+            return;
+        }
+    };
+    for ((h, outs), mem) in sessions.iter().zip(&shared).zip(&members) {
+        for (j, &i) in mem.iter().enumerate() {
+            let (k, k2) = meta[i];
+            rep.oracle_checked += 1;
+            rep.count("reused_state_probes");
+            if let Err(e) = c07_probe(&h.calls[j], &outs[j], k, k2) {
+                rep.fail(
+                    "oracle",
+                    format!("on reused objects (call {} of a `_with` session, previous sizes {:?}): {}", j, h.calls[..j].iter().map(|c| c.n).collect::<Vec<_>>(), e),
+                    h.calls[..j + 1].iter().map(|c| op_line_with(0, c)).collect(),
+                    vec![outs[j].line(false)],
+                    vec![],
+                );
+                break;
+            }
+        }
+    }
+}
+
+/// C07 for one probe: slot `k` holds the smallest entry, slot `k2` the second smallest.
+fn c07_probe(c: &Case, o: &Outcome, k: usize, k2: usize) -> Result<(), String> {
+    expect_ok(c, o)?;
+    let steps = o.steps().unwrap();
+    let (pi, pj) = pair_of_slot(c.n, k);
+    let s0 = &steps[0];
+    let q = f64_to_bits(c.w32, 0.25);
+    if s0.c1 != pi || s0.c2 != pj || s0.bits != q || s0.size != 2 {
+        return Err(format!("slot {} of n={} is pair ({},{}) but first step is ({},{},{},{})", k, c.n, pi, pj, s0.c1, s0.c2, bits_to_f64(c.w32, s0.bits), s0.size));
+    }
+    if let Method::Single = c.method {
+        if c.n >= 3 {
+            let (qi, qj) = pair_of_slot(c.n, k2);
+            let s1 = &steps[1];
+            let lab = |x: usize| if x == pi || x == pj { c.n } else { x };
+            let (mut e1, mut e2) = (lab(qi), lab(qj));
+            if e1 > e2 {
+                std::mem::swap(&mut e1, &mut e2);
+            }
+            if s1.c1 != e1 || s1.c2 != e2 || s1.bits != f64_to_bits(c.w32, 0.5) {
+                return Err(format!("second-smallest slot {} is pair ({},{}); expected second step ({},{}) at 0.5, got ({},{},{})", k2, qi, qj, e1, e2, s1.c1, s1.c2, bits_to_f64(c.w32, s1.bits)));
+            }
+        }
+    }
+    Ok(())
 }
 
 
